@@ -1,0 +1,316 @@
+//! Verification hooks for the handler (cargo feature `verif-hooks`). Add-only:
+//!  * `Handler::spawn_virtual`: the real handler on a socket whose datagrams travel over channels;
+//!  * a read-only probe publishing a snapshot of the handler's bookkeeping to a global registry;
+//!  * a crafting toolkit: thin wrappers over the crate-private handshake/crypto primitives, so
+//!    that an adversary can be composed freely by the harness.
+
+use super::*;
+use crate::packet::ChallengeData;
+use std::convert::TryFrom;
+
+// ---------------------------------------------------------------------------------------------
+// virtual socket
+// ---------------------------------------------------------------------------------------------
+
+/// What `Handler::spawn_virtual` hands back.
+pub struct VirtualHandler {
+    pub exit: oneshot::Sender<()>,
+    pub to_handler: mpsc::UnboundedSender<HandlerIn>,
+    pub from_handler: mpsc::Receiver<HandlerOut>,
+    /// Datagrams arriving at this node: (source address, bytes).
+    pub inbound: mpsc::UnboundedSender<(SocketAddr, Vec<u8>)>,
+    /// Datagrams emitted by this node: (destination, bytes as put on the wire).
+    pub outbound: mpsc::UnboundedReceiver<(NodeAddress, Vec<u8>)>,
+    /// The map shared with the receive task (address -> number of exemptions).
+    pub expected_responses: Arc<RwLock<HashMap<SocketAddr, usize>>>,
+}
+
+impl Handler {
+    /// Same as `Handler::spawn`, with the UDP socket replaced by channels.
+    pub async fn spawn_virtual(
+        enr: Arc<RwLock<Enr>>,
+        key: Arc<RwLock<CombinedKey>>,
+        config: Config,
+    ) -> Result<VirtualHandler, std::io::Error> {
+        let (exit_sender, exit) = oneshot::channel();
+        let (handler_send, service_recv) = mpsc::unbounded_channel();
+        let (service_send, handler_recv) = mpsc::channel(50);
+        let (inbound_tx, inbound_rx) = mpsc::unbounded_channel();
+        let (outbound_tx, outbound_rx) = mpsc::unbounded_channel();
+
+        let filter_expected_responses = Arc::new(RwLock::new(HashMap::new()));
+        let node_id = enr.read().node_id();
+
+        let filter_config = FilterConfig {
+            enabled: config.enable_packet_filter,
+            rate_limiter: config.filter_rate_limiter.clone(),
+            max_nodes_per_ip: config.filter_max_nodes_per_ip,
+            max_bans_per_ip: config.filter_max_bans_per_ip,
+        };
+
+        let mut listen_sockets = SmallVec::default();
+        match config.listen_config {
+            ListenConfig::Ipv4 { ip, port } => listen_sockets.push((ip, port).into()),
+            ListenConfig::Ipv6 { ip, port } => listen_sockets.push((ip, port).into()),
+            ListenConfig::DualStack {
+                ipv4,
+                ipv4_port,
+                ipv6,
+                ipv6_port,
+            } => {
+                listen_sockets.push((ipv4, ipv4_port).into());
+                listen_sockets.push((ipv6, ipv6_port).into());
+            }
+            ListenConfig::FromSockets { .. } => {}
+        };
+
+        let socket_config = socket::SocketConfig {
+            executor: config.executor.clone().expect("Executor must exist"),
+            filter_config,
+            listen_config: config.listen_config.clone(),
+            local_node_id: node_id,
+            protocol_identity: config.protocol_identity,
+            expected_responses: filter_expected_responses.clone(),
+            ban_duration: config.ban_duration,
+        };
+
+        let socket = Socket::new_virtual(socket_config, inbound_rx, outbound_tx).await?;
+        let expected = filter_expected_responses.clone();
+
+        config
+            .executor
+            .clone()
+            .expect("Executor must be present")
+            .spawn(Box::pin(async move {
+                let mut handler = Handler {
+                    request_retries: config.request_retries,
+                    node_id,
+                    protocol_identity: config.protocol_identity,
+                    enr,
+                    key,
+                    active_requests: ActiveRequests::new(config.request_timeout),
+                    pending_requests: HashMap::new(),
+                    filter_expected_responses,
+                    sessions: LruTimeCache::new(
+                        config.session_timeout,
+                        Some(config.session_cache_capacity),
+                    ),
+                    active_challenges: HashMapDelay::new(config.request_timeout),
+                    service_recv,
+                    service_send,
+                    listen_sockets,
+                    socket,
+                    exit,
+                };
+                handler.start().await;
+            }));
+
+        Ok(VirtualHandler {
+            exit: exit_sender,
+            to_handler: handler_send,
+            from_handler: handler_recv,
+            inbound: inbound_tx,
+            outbound: outbound_rx,
+            expected_responses: expected,
+        })
+    }
+}
+
+// ---------------------------------------------------------------------------------------------
+// probe
+// ---------------------------------------------------------------------------------------------
+
+#[derive(Debug, Clone)]
+pub struct SessionSnap {
+    pub addr: NodeAddress,
+    /// (encryption key, decryption key)
+    pub keys: ([u8; 16], [u8; 16]),
+    pub old_keys: Option<([u8; 16], [u8; 16])>,
+    pub awaiting_enr: Option<RequestId>,
+}
+
+#[derive(Debug, Clone)]
+pub struct ActiveSnap {
+    pub addr: NodeAddress,
+    pub id: RequestId,
+    pub internal: bool,
+    pub nonce: MessageNonce,
+    pub retries: u8,
+    pub handshake_sent: bool,
+    pub initiating_session: bool,
+    pub body: RequestBody,
+}
+
+#[derive(Debug, Clone)]
+pub struct PendingSnap {
+    pub addr: NodeAddress,
+    pub id: RequestId,
+    pub internal: bool,
+}
+
+#[derive(Debug, Clone, Default)]
+pub struct HandlerSnapshot {
+    /// Sessions in LRU order, least recently used first.
+    pub sessions: Vec<SessionSnap>,
+    pub active: Vec<ActiveSnap>,
+    pub pending: Vec<PendingSnap>,
+    /// Outstanding challenges: address and the 63 bytes of challenge data.
+    pub challenges: Vec<(NodeAddress, Vec<u8>)>,
+    pub exemptions: HashMap<SocketAddr, usize>,
+    /// How often the main loop published (i.e. iterations of the main loop so far).
+    pub publishes: u64,
+}
+
+lazy_static! {
+    static ref VERIF_SNAPSHOTS: parking_lot::Mutex<HashMap<NodeId, HandlerSnapshot>> =
+        parking_lot::Mutex::new(HashMap::new());
+}
+
+/// The last published snapshot of the handler with this local node id.
+pub fn snapshot(local_id: &NodeId) -> Option<HandlerSnapshot> {
+    VERIF_SNAPSHOTS.lock().get(local_id).cloned()
+}
+
+/// Forget all published snapshots.
+pub fn reset_snapshots() {
+    VERIF_SNAPSHOTS.lock().clear();
+}
+
+impl Handler {
+    pub(super) fn verif_publish(&mut self) {
+        let sessions = self
+            .sessions
+            .verif_iter()
+            .map(|(addr, s)| {
+                let (keys, old_keys) = s.verif_keys();
+                SessionSnap {
+                    addr: addr.clone(),
+                    keys,
+                    old_keys,
+                    awaiting_enr: s.awaiting_enr.clone(),
+                }
+            })
+            .collect();
+        let active = self
+            .active_requests
+            .verif_all()
+            .map(|(addr, r)| ActiveSnap {
+                addr: addr.clone(),
+                id: r.id().into(),
+                internal: matches!(r.id(), HandlerReqId::Internal(_)),
+                nonce: *r.packet().message_nonce(),
+                retries: r.retries(),
+                handshake_sent: r.handshake_sent(),
+                initiating_session: r.initiating_session(),
+                body: r.body().clone(),
+            })
+            .collect();
+        let pending = self
+            .pending_requests
+            .iter()
+            .flat_map(|(addr, v)| {
+                v.iter().map(move |p| PendingSnap {
+                    addr: addr.clone(),
+                    id: (&p.request_id).into(),
+                    internal: matches!(p.request_id, HandlerReqId::Internal(_)),
+                })
+            })
+            .collect();
+        let challenges = self
+            .active_challenges
+            .iter()
+            .map(|(addr, c)| (addr.clone(), c.data.as_ref().to_vec()))
+            .collect();
+        let exemptions = self.filter_expected_responses.read().clone();
+        let mut reg = VERIF_SNAPSHOTS.lock();
+        let publishes = reg.get(&self.node_id).map(|s| s.publishes).unwrap_or(0) + 1;
+        reg.insert(
+            self.node_id,
+            HandlerSnapshot {
+                sessions,
+                active,
+                pending,
+                challenges,
+                exemptions,
+                publishes,
+            },
+        );
+    }
+}
+
+// ---------------------------------------------------------------------------------------------
+// crafting toolkit
+// ---------------------------------------------------------------------------------------------
+
+/// `WhoAreYouRef` constructor (its nonce field is private).
+pub fn whoareyou_ref(addr: NodeAddress, nonce: MessageNonce) -> WhoAreYouRef {
+    WhoAreYouRef(addr, nonce)
+}
+
+/// The request nonce carried by a `WhoAreYouRef`.
+pub fn whoareyou_ref_nonce(r: &WhoAreYouRef) -> MessageNonce {
+    r.1
+}
+
+fn challenge_data(data: &[u8]) -> Result<ChallengeData, String> {
+    ChallengeData::try_from(data).map_err(|_| "challenge data must be 63 bytes".to_string())
+}
+
+/// `crypto::generate_session_keys`: (initiator key, recipient key, ephemeral public key).
+pub fn generate_session_keys(
+    local_id: &NodeId,
+    contact: &NodeContact,
+    challenge: &[u8],
+) -> Result<([u8; 16], [u8; 16], Vec<u8>), String> {
+    crypto::generate_session_keys(local_id, contact, &challenge_data(challenge)?)
+        .map_err(|e| format!("{e:?}"))
+}
+
+/// `crypto::derive_keys_from_pubkey`: (initiator key, recipient key) as seen by the recipient.
+pub fn derive_keys_from_pubkey(
+    local_key: &CombinedKey,
+    local_id: &NodeId,
+    remote_id: &NodeId,
+    challenge: &[u8],
+    ephem_pubkey: &[u8],
+) -> Result<([u8; 16], [u8; 16]), String> {
+    crypto::derive_keys_from_pubkey(
+        local_key,
+        local_id,
+        remote_id,
+        &challenge_data(challenge)?,
+        ephem_pubkey,
+    )
+    .map_err(|e| format!("{e:?}"))
+}
+
+/// `crypto::sign_nonce`.
+pub fn sign_nonce(
+    signing_key: &CombinedKey,
+    challenge: &[u8],
+    ephem_pubkey: &[u8],
+    dst_id: &NodeId,
+) -> Result<Vec<u8>, String> {
+    crypto::sign_nonce(signing_key, &challenge_data(challenge)?, ephem_pubkey, dst_id)
+        .map_err(|e| format!("{e:?}"))
+}
+
+/// `crypto::encrypt_message` (AES-128-GCM).
+pub fn encrypt_message(
+    key: &[u8; 16],
+    nonce: MessageNonce,
+    msg: &[u8],
+    aad: &[u8],
+) -> Result<Vec<u8>, String> {
+    crypto::encrypt_message(key, nonce, msg, aad).map_err(|e| format!("{e:?}"))
+}
+
+/// `crypto::decrypt_message` (AES-128-GCM).
+pub fn decrypt_message(
+    key: &[u8; 16],
+    nonce: MessageNonce,
+    msg: &[u8],
+    aad: &[u8],
+) -> Result<Vec<u8>, String> {
+    crypto::decrypt_message(key, nonce, msg, aad).map_err(|e| format!("{e:?}"))
+}
